@@ -426,8 +426,8 @@ Theorem registers_every_field items f :
   In f (names (block_decl items)) <-> In f (map fst (flat_map collect items)).
 Proof.
   unfold names, block_decl. cbn [auto manual]. rewrite in_filter_names. split; [|auto].
-  intros [H|H]; auto. destruct (last_block items) as [b|]; [|destruct H].
-  apply in_map_iff in H as ((g, i) & <- & Hin). apply filter_In in Hin as [Hin _].
+  intros [H|H]; auto.
+  apply in_map_iff in H as ((g, i) & <- & Hin).
   eapply direct_manual_keys; eauto.
 Qed.
 
